@@ -52,8 +52,9 @@ def _worker_init():
         pass
 
 
-def _exec_job(modname, job, timeout=JOB_TIMEOUT):
+def _exec_job(modname, job, timeout=None):
     mod = importlib.import_module(modname)
+    timeout = timeout or getattr(mod, "JOB_TIMEOUT", JOB_TIMEOUT)
     signal.signal(signal.SIGALRM, _alarm)
     signal.alarm(timeout)
     try:
@@ -154,7 +155,7 @@ def shrink(mod, modname, job, target, pool, budget_runs=200, budget_s=120):
         results = []
         for f in futs:
             try:
-                results.append(f.result(timeout=JOB_TIMEOUT + 30))
+                results.append(f.result(timeout=getattr(mod, 'JOB_TIMEOUT', JOB_TIMEOUT) + 30))
             except Exception:
                 results.append({"violations": []})
         for cand, res in zip(cands, results):
@@ -177,7 +178,7 @@ def shrink(mod, modname, job, target, pool, budget_runs=200, budget_s=120):
                 runs += len(more)
                 for cand, f in zip(more, futs):
                     try:
-                        res = f.result(timeout=JOB_TIMEOUT + 30)
+                        res = f.result(timeout=getattr(mod, 'JOB_TIMEOUT', JOB_TIMEOUT) + 30)
                     except Exception:
                         continue
                     if any(v["property"] == target[0] and v["clause"] == target[1]
@@ -294,7 +295,8 @@ def run_check(modname, tier, verif_seed, nworkers, n_override=None, selftest=Tru
                 pending.add(pool.submit(_run_index, a))
             if not pending:
                 break
-            finished, pending = cf.wait(pending, timeout=JOB_TIMEOUT + 60, return_when=cf.FIRST_COMPLETED)
+            finished, pending = cf.wait(pending, timeout=getattr(mod, "JOB_TIMEOUT", JOB_TIMEOUT) + 60,
+                                        return_when=cf.FIRST_COMPLETED)
             if not finished:
                 harness_errors.append("worker stalled beyond watchdog")
                 break
